@@ -109,6 +109,9 @@ func wAccept(s *yamux.Session) (*yamux.Stream, error) {
 	if g.closed {
 		return nil, yamux.ErrSessionShutdown
 	}
+	if g.raw.dead() { // streams opened on a connection that died (or never got through its handshake) are not delivered
+		return nil, io.EOF
+	}
 	select {
 	case st := <-g.raw.acceptQ:
 		st.sess = g
@@ -289,8 +292,14 @@ func mServeConn(s *rpc.Server, conn io.ReadWriteCloser) {
 	srv := wRPCSrvG[s]
 	raw := g.rawConn()
 	for {
+		if raw.dead() { // nothing queued on a dead connection (e.g. one whose handshake failed) is ever read
+			return
+		}
 		select {
 		case req := <-g.reqQ:
+			if raw.dead() {
+				return
+			}
 			if p := wCurProc(); p != nil && p.frozen {
 				continue // a stopped process reads nothing and answers nothing
 			}
